@@ -441,7 +441,7 @@ def main():
                 for k, v in st["distribution"].items():
                     distribution[hname + ":" + k] = distribution.get(hname + ":" + k, 0) + v
                 if len(samples) < 4:
-                    samples += st["samples"][:2]
+                    samples += (st.get("samples") or [])[:2]
                 hinfo = {"name": hname, "seed": sd, "cases": st["cases"], "ops": st["ops"],
                          "wall_s": round(r["wall_s"], 1), "extra": st.get("extra", {})}
                 # oracle failures
